@@ -75,7 +75,7 @@ def decode_result(r):
         body = r[5:]
         if body:
             for t in body.split(";"):
-                p = t.split(":")
+                p = t.split("/")
                 toks.append({"type": p[0], "lit": unhx(p[1]).decode("utf-8", "replace"), "line": int(p[2]), "endLine": int(p[3]),
                              "startChar": int(p[4]), "endChar": int(p[5]), "startUtf8": int(p[6]), "endUtf8": int(p[7])})
         return {"kind": "TOKS", "toks": toks}
